@@ -181,6 +181,10 @@ def run(ctx):
     for key, lst in sorted(seen.items()):
         bad = [x for x in lst if not x[1]]
         if bad:
+            # key = 'KmipEngine.<handler>|<method>.<param>': a guard of that handler the analysis could not read is not a missing guard
+            h_ = key.split('|')[0].split('.')[-1]
+            if ai.unresolved.get(h_):
+                raise AnalysisError('unrecognised construct: %s tests the key object against values that are not constants at that point (%s); the guards of the cryptographic use cannot be decided' % (h_, '; '.join(ai.unresolved[h_][:3])))
             ctx.fail('C04.R3', key, bad[0][0], bad[0][2])
         else:
             ctx.ok('C04.R3', lst[0][0], lst[0][2])
